@@ -1,6 +1,9 @@
 package props
 
 import (
+	"testing/iotest"
+	"io"
+	"bufio"
 	"errors"
 	"bytes"
 	"fmt"
@@ -29,6 +32,21 @@ func encodeImg(img image.Image, o *gen.Opts) ([]byte, error) {
 	var buf bytes.Buffer
 	err := webp.Encode(&buf, img, o.Build())
 	return buf.Bytes(), err
+}
+
+// readerKinds are legal io.Reader behaviours a caller may hand to the decoding entry points: the
+// package's answers must not depend on how the bytes arrive (short reads, one byte at a time,
+// data returned together with io.EOF, small buffered readers, no Len method).
+var readerKinds = []struct {
+	Name string
+	New  func(b []byte) io.Reader
+}{
+	{"plain", func(b []byte) io.Reader { return io.MultiReader(bytes.NewReader(b)) }},
+	{"onebyte", func(b []byte) io.Reader { return iotest.OneByteReader(bytes.NewReader(b)) }},
+	{"half", func(b []byte) io.Reader { return iotest.HalfReader(bytes.NewReader(b)) }},
+	{"dataerr", func(b []byte) io.Reader { return iotest.DataErrReader(bytes.NewReader(b)) }},
+	{"bufio16", func(b []byte) io.Reader { return bufio.NewReaderSize(bytes.NewReader(b), 16) }},
+	{"bufio4096", func(b []byte) io.Reader { return bufio.NewReaderSize(iotest.HalfReader(bytes.NewReader(b)), 4096) }},
 }
 
 // faultWriter accepts budget bytes and then fails: the injected fault for "a write error at byte k".
